@@ -42,23 +42,23 @@ theorem scriptTask_fst_eq_replay (cfg : Cfg) (i : Nat) (st : TaskSt) (r : Rec) :
   split <;> rfl
 
 theorem scriptTask_snd_eq_replay (cfg : Cfg) (hf : cfg.funcs = []) (ha : cfg.argsFixed = true)
-    (i : Nat) (st : TaskSt) (r : Rec) :
+    (hx : cfg.exitAddrFixed = true) (i : Nat) (st : TaskSt) (r : Rec) :
     (scriptTask cfg i st r).2 = (replayTask cfg i st r).2.map Shown.toCb := by
   unfold scriptTask replayTask
   split
-  · simp only [scriptExitCb, replayExitLine, matchFuncs_nil cfg hf, Bool.and_true]
+  · simp only [scriptExitCb, replayExitLine, matchFuncs_nil cfg hf, Bool.and_true, hx, ↓reduceIte]
     split <;> simp [Shown.toCb]
   · simp only [scriptEntryCb, replayEntryLine, matchFuncs_nil cfg hf, Bool.and_true, entryHasArgs, ha, ↓reduceIte]
     split <;> simp [Shown.toCb, Bool.and_comm]
 
 /-- the same with the code before the repair of F-C18-ARGS, on data where an ENTRY
     record has a payload exactly when its function has an argspec -/
-theorem scriptTask_snd_eq_replay_wfargs (cfg : Cfg) (hf : cfg.funcs = [])
+theorem scriptTask_snd_eq_replay_wfargs (cfg : Cfg) (hf : cfg.funcs = []) (hx : cfg.exitAddrFixed = true)
     (i : Nat) (st : TaskSt) (r : Rec) (hw : r.exit = false → r.more = cfg.argTrig r.addr) :
     (scriptTask cfg i st r).2 = (replayTask cfg i st r).2.map Shown.toCb := by
   unfold scriptTask replayTask
   split
-  · simp only [scriptExitCb, replayExitLine, matchFuncs_nil cfg hf, Bool.and_true]
+  · simp only [scriptExitCb, replayExitLine, matchFuncs_nil cfg hf, Bool.and_true, hx, ↓reduceIte]
     split <;> simp [Shown.toCb]
   · rename_i hx
     have hx' : r.exit = false := by simpa using hx
@@ -67,6 +67,82 @@ theorem scriptTask_snd_eq_replay_wfargs (cfg : Cfg) (hf : cfg.funcs = [])
     · have e : cfg.argTrig r.addr = r.more := (hw hx').symm
       simp [Shown.toCb, e, Bool.and_comm]
     · simp
+
+
+/-! ### the loops with fix-up records (exec, setjmp / longjmp, fork) -/
+
+theorem runX_map {α β : Type} (sa : Nat → XSt → Rec → XSt × List α)
+    (sb : Nat → XSt → Rec → XSt × List β) (f : β → α)
+    (h1 : ∀ i x r, (sa i x r).1 = (sb i x r).1)
+    (h2 : ∀ i x r, (sa i x r).2 = (sb i x r).2.map f) :
+    ∀ (s : List (Nat × Rec)) (x : XSt),
+      (runX sa x s).1 = (runX sb x s).1 ∧ (runX sa x s).2 = (runX sb x s).2.map f
+  | [], x => by simp [runX]
+  | (i, r) :: rest, x => by
+    have ih := runX_map sa sb f h1 h2 rest (sb i x r).1
+    simp only [runX, h1, h2, List.map_append]
+    exact ⟨ih.1, by rw [ih.2]⟩
+
+/-- the two loops change the state — the tasks, the fork display depths and the setjmp statics — in the
+    same way, record by record: the fix-ups are applied by the same statements of fstack_entry /
+    fstack_update in both -/
+theorem scriptTaskX_fst_eq_replay (cfg : Cfg) (i : Nat) (x : XSt) (r : Rec) :
+    (scriptTaskX cfg i x r).1 = (replayTaskX cfg i x r).1 := by
+  unfold scriptTaskX replayTaskX
+  split <;> rfl
+
+/-- … and every callback is the line replay prints for the record: in particular the depth of an entry
+    callback is the display depth *before* fstack_update resets it for a longjmp / exec call -/
+theorem scriptTaskX_snd_eq_replay (cfg : Cfg) (hf : cfg.funcs = []) (ha : cfg.argsFixed = true)
+    (hx : cfg.exitAddrFixed = true) (i : Nat) (x : XSt) (r : Rec) :
+    (scriptTaskX cfg i x r).2 = (replayTaskX cfg i x r).2.map Shown.toCb := by
+  unfold scriptTaskX replayTaskX
+  split
+  · simp only [scriptExitCb, replayExitLine, matchFuncs_nil cfg hf, Bool.and_true, hx, ↓reduceIte]
+    split <;> simp [Shown.toCb]
+  · simp only [scriptEntryCb, replayEntryLine, matchFuncs_nil cfg hf, Bool.and_true, entryHasArgs, ha, ↓reduceIte]
+    split <;> simp [Shown.toCb, Bool.and_comm]
+
+/-- no fix-up symbol in the data and no forked task -/
+def NoFix (cfg : Cfg) : Prop := (∀ a, cfg.fix a = .none) ∧ (∀ i, cfg.parent i = none)
+
+theorem inheritFork_nofix (cfg : Cfg) (h : NoFix cfg) (x : XSt) (i : Nat) (s : TaskSt) (r : Rec) :
+    inheritFork cfg x i s r = s := by
+  unfold inheritFork
+  split
+  · rfl
+  · simp [h.2 i]
+
+theorem fixKind_nofix (cfg : Cfg) (h : NoFix cfg) (s : TaskSt) (r : Rec) : fixKind cfg s r = .none := by
+  unfold fixKind
+  split
+  · rfl
+  · exact h.1 _
+
+theorem scriptTaskX_nofix (cfg : Cfg) (h : NoFix cfg) (i : Nat) (x : XSt) (r : Rec) :
+    scriptTaskX cfg i x r = (putTask x i (scriptTask cfg i (x.g i) r).1, (scriptTask cfg i (x.g i) r).2) := by
+  unfold scriptTaskX scriptTask
+  simp only [consumeX, inheritFork_nofix cfg h, fixGlobals, entryStX, fixKind_nofix cfg h, updateEntryX, scriptEntrySt,
+    updateEntry]
+  split <;> rfl
+
+theorem replayTaskX_nofix (cfg : Cfg) (h : NoFix cfg) (i : Nat) (x : XSt) (r : Rec) :
+    replayTaskX cfg i x r = (putTask x i (replayTask cfg i (x.g i) r).1, (replayTask cfg i (x.g i) r).2) := by
+  unfold replayTaskX replayTask
+  simp only [consumeX, inheritFork_nofix cfg h, fixGlobals, entryStX, fixKind_nofix cfg h, updateEntryX, replayEntrySt,
+    updateEntry]
+  split <;> rfl
+
+/-- without fix-up records the loops with the fix-up logic are the plain loops -/
+theorem runX_nofix {α : Type} (sx : Nat → XSt → Rec → XSt × List α) (sp : Nat → TaskSt → Rec → TaskSt × List α)
+    (h : ∀ i x r, sx i x r = (putTask x i (sp i (x.g i) r).1, (sp i (x.g i) r).2)) :
+    ∀ (s : List (Nat × Rec)) (x : XSt),
+      (runX sx x s).2 = (runWith sp x.g s).2 ∧ (runX sx x s).1.g = (runWith sp x.g s).1
+  | [], x => by simp [runX, runWith]
+  | (i, r) :: rest, x => by
+    have ih := runX_nofix sx sp h rest (putTask x i (sp i (x.g i) r).1)
+    simp only [runX, runWith, h]
+    exact ⟨by rw [ih.1]; rfl, by rw [ih.2]; rfl⟩
 
 /-! ### the script's function list only filters the output -/
 
@@ -968,6 +1044,60 @@ mutual
 end
 
 end Uft.Script.Hook
+
+/-! ## the interpreter lock of a binding -/
+namespace Uft.Script.Bind
+
+/-- with a blocking lock: at most one callback is inside the interpreter, nothing waits while it is free, and
+    the script has been called, in order, with exactly the hooks that reached the binding and do not wait -/
+structure LockInv (s : BSt) : Prop where
+  one : s.running.length ≤ 1
+  free : s.running = [] → s.waiting = []
+  all : s.log ++ s.waiting = s.issued
+  ok : s.corrupt = false
+
+theorem lockInv_init : LockInv {} := ⟨by simp, fun _ => rfl, rfl, rfl⟩
+
+theorem lockInv_step (s : BSt) (h : LockInv s) (x : Step) : LockInv (step .lock s x) := by
+  obtain ⟨h1, h2, h3, h4⟩ := h
+  cases x with
+  | hook t c =>
+    simp only [step]
+    by_cases hr : s.running = []
+    · have hw := h2 hr
+      simp only [hr, List.isEmpty_nil, ↓reduceIte, enter]
+      refine ⟨by simp, fun hh => by simp at hh, ?_, h4⟩
+      simp only [hw, List.append_nil] at h3 ⊢
+      rw [h3]
+    · have : s.running.isEmpty = false := by cases hs : s.running <;> simp_all
+      simp only [this, Bool.false_eq_true, ↓reduceIte]
+      refine ⟨h1, fun hh => absurd hh hr, ?_, h4⟩
+      show s.log ++ (s.waiting ++ [(t, c)]) = s.issued ++ [(t, c)]
+      rw [← List.append_assoc, h3]
+  | done t =>
+    simp only [step]
+    by_cases hf : (s.running.filter (fun x => x.1 != t)).isEmpty = true
+    · simp only [hf, ↓reduceIte]
+      cases hw : s.waiting with
+      | nil =>
+        refine ⟨by simp, fun _ => rfl, ?_, h4⟩
+        show s.log ++ [] = s.issued
+        rw [← h3, hw]
+      | cons w ws =>
+        refine ⟨by simp, fun hh => by simp at hh, ?_, h4⟩
+        show s.log ++ [w] ++ ws = s.issued
+        rw [← h3, hw]; simp
+    · simp only [hf, Bool.false_eq_true, ↓reduceIte]
+      have hle : (s.running.filter (fun x => x.1 != t)).length ≤ s.running.length := List.length_filter_le _ _
+      refine ⟨by show (s.running.filter _).length ≤ 1; omega, ?_, h3, h4⟩
+      intro hh
+      simp [show (s.running.filter (fun x => x.1 != t)) = [] from hh] at hf
+
+theorem lockInv_run : ∀ (xs : List Step) (s : BSt), LockInv s → LockInv (run .lock s xs)
+  | [], s, h => h
+  | x :: xs, s, h => lockInv_run xs (step .lock s x) (lockInv_step s h x)
+
+end Uft.Script.Bind
 
 /-! ## the argument buffer: every reader returns what the writer stored -/
 namespace Uft.Script.Args
